@@ -497,6 +497,8 @@ class DimArrayOnDisk(GetSetDelAttrMixin, NetCDFVariable, AbstractDimArray):
         if isinstance(dima, DimArray):
             for i, ax in enumerate(self.axes):
                 idx = indices[i]
+                if ax.name not in dima.dims:
+                    continue # (a dimension removed by a scalar index)
                 axis = dima.axes[ax.name]
                 # write unlimited dimensions
                 if self._ds.dimensions[ax.name].isunlimited():
